@@ -150,6 +150,11 @@ def export_cases(ctx, rng, n, tid0):
         try:
             with quiet():
                 extra = {"ode_modifier": {"H": {"factors": ["-1.0e-17*nH"], "reactants": [["H"]]}}, } if k % 2 == 0 else {}
+                if k % 3 == 1:
+                    # an allowed list AND a required list, the required grain species (which no reaction mentions, and which the dust
+                    # model's grain density is made of) being on both
+                    names = sorted({x.name for r3 in reacs for x in r3.reactants + r3.products})
+                    extra.update(allowed_species=names + ["GRAIN0"], required_species=["GRAIN0"])
                 net = Network(reacs, grain_model="hh93", **extra)
                 rate_exprs(ctx, net, f"exp_{k}")        # the direct rendering must work at all (a dust model may not serve these reaction classes)
         except Exception:   # noqa
